@@ -350,6 +350,23 @@ func exhaustiveC04(thorough bool, emit func(C04Case) bool) {
 			return
 		}
 	}
+	// multi-byte tokens (BOM, fmt verbs, gzip magic, NEL/NBSP) at the start and inside of Chrom and
+	// Name of the first and of a later record
+	for n := 3; n <= 12; n += 3 {
+		for _, tok := range gen.HostileTokens {
+			for pos := 0; pos < 2; pos++ {
+				val := append(append(gen.B{}, tok...), 'x')
+				if pos == 1 {
+					val = append(append(gen.B{'x'}, tok...), 'y')
+				}
+				r1, r2 := baseBedRec(n), baseBedRec(n)
+				r1.Chrom, r2.Name = val, val
+				if !emit(C04Case{Recs: []BedRec{r1, r2, r1}}) || !emit(C04Case{Recs: []BedRec{r2, r1}}) {
+					return
+				}
+			}
+		}
+	}
 	// very long fields / lines and many blocks
 	for _, n := range []int{4096, 9000, 70000} {
 		r := baseBedRec(12)
